@@ -253,3 +253,67 @@ def mesh_node_ring(faces, selected):
 def physical_depth(value, positive):
     """Depth below the surface of a coordinate value."""
     return value if positive == "down" else -value
+
+
+# --------------------------------------------------------------------------------------------
+# R-clip-line: exact length of the part of a segment that lies in a closed simple polygon
+
+def _seg_params(a, b, c, d):
+    """Parameters t in [0, 1] on segment ab where it meets segment cd (crossing, touching or the
+    two ends of a collinear overlap).  Exact for Fractions."""
+    (ax, ay), (bx, by), (cx, cy), (dx, dy) = a, b, c, d
+    rx, ry = bx - ax, by - ay
+    sx, sy = dx - cx, dy - cy
+    denom = rx * sy - ry * sx
+    qpx, qpy = cx - ax, cy - ay
+    out = []
+    if denom != 0:
+        t = (qpx * sy - qpy * sx) / denom
+        u = (qpx * ry - qpy * rx) / denom
+        if 0 <= t <= 1 and 0 <= u <= 1:
+            out.append(t)
+        return out
+    if qpx * ry - qpy * rx != 0:
+        return out          # parallel, not collinear
+    rr = rx * rx + ry * ry
+    if rr == 0:
+        return out
+    t0 = (qpx * rx + qpy * ry) / rr
+    t1 = t0 + (sx * rx + sy * ry) / rr
+    lo, hi = min(t0, t1), max(t0, t1)
+    if hi < 0 or lo > 1:
+        return out
+    out.extend([max(lo, Fraction(0)), min(hi, Fraction(1))])
+    return out
+
+
+def inside_fraction(ring, a, b):
+    """Fraction of the segment ab (as a Fraction in [0, 1]) that lies in the closed polygon."""
+    pts = [(_fr(x), _fr(y)) for x, y in ring]
+    a = (_fr(a[0]), _fr(a[1]))
+    b = (_fr(b[0]), _fr(b[1]))
+    cuts = {Fraction(0), Fraction(1)}
+    n = len(pts)
+    for k in range(n):
+        cuts.update(_seg_params(a, b, pts[k], pts[(k + 1) % n]))
+    cuts = sorted(cuts)
+    total = Fraction(0)
+    for t0, t1 in zip(cuts, cuts[1:]):
+        if t1 == t0:
+            continue
+        tm = (t0 + t1) / 2
+        mid = (a[0] + (b[0] - a[0]) * tm, a[1] + (b[1] - a[1]) * tm)
+        if point_in_closed_polygon(mid, pts):
+            total += t1 - t0
+    return total
+
+
+def path_length_inside(ring, path):
+    """Length of the polyline ``path`` inside the closed polygon ``ring`` (float at the end)."""
+    import math
+    total = 0.0
+    for a, b in zip(path, path[1:]):
+        frac = inside_fraction(ring, a, b)
+        if frac:
+            total += float(frac) * math.hypot(b[0] - a[0], b[1] - a[1])
+    return total
